@@ -231,12 +231,11 @@ def _build_tables() -> None:
     _p("i64", "({0} + i64({1} % 1000)) % 100003", ["i64", I], "coerce.int->i64.add", 0.5)
     _p("i64", "({0} + {1}) % 100003", ["i64", B], "coerce.bool->i64.add", 0.3)
     _p("i64", "idi64({0} % 4096)", [I], "coerce.int->i64.arg", 0.5)
-    _p("i64", "idi64({0})", [B], "coerce.bool->i64.arg", 0.3)
+    _p("i64", "(idi64({0}) + 0)", [B], "coerce.bool->i64.arg", 0.3)
     _p("Optional[int]", "optid({0})", [I], "coerce.int->optional.arg", 0.5)
     _p("Optional[int]", "optid({0})", ["v:Optional[int]"], "call.native.optional", 0.5)
     _p("tuple[int, str]", "tupid(({0}, {1}))", [I, S], "coerce.tuple.arg", 0.5)
     _p("tuple[int, str]", "tupid({0})", ["tuple[int, str]"], "call.native.tuple", 0.3)
-    _p("object", "{0}", [I], "coerce.int->object", 0.1)
     for e in ELEMS:
         L = f"list[{e}]"
         _p(I, "len({0})", [L], "len.list")
